@@ -301,10 +301,11 @@ package router
 //@   requires details != nil
 //@   modifies map(details)
 //@   ensures [others-kept] forall k string :: k != "ppt_scheme" && k != "ppt_serializer" && k != "ppt_cipher" && k != "ppt_keyid" ==> (k in details) == old(k in details) && details[k] == old(details[k])
+//@   ensures [ground-others] ("receive_progress" in details) == old("receive_progress" in details) && details["receive_progress"] == old(details["receive_progress"]) && ("progress" in details) == old("progress" in details) && details["progress"] == old(details["progress"]) && ("timeout" in details) == old("timeout" in details) && details["timeout"] == old(details["timeout"]) && ("procedure" in details) == old("procedure" in details) && details["procedure"] == old(details["procedure"]) && ("caller" in details) == old("caller" in details) && details["caller"] == old(details["caller"]) && ("topic" in details) == old("topic" in details) && details["topic"] == old(details["topic"]) && ("publisher" in details) == old("publisher" in details) && details["publisher"] == old(details["publisher"])
 
 //@ pred validTopic(b *broker, t wamp.URI) = b.strictURI ? inre(string(t), "strict-exact") : inre(string(t), "loose-exact")
-//@ pred wantsAck(msg *wamp.Publish) = is(msg.Options["acknowledge"], bool) && msg.Options["acknowledge"].(bool)
-//@ pred wantsDisclose(msg *wamp.Publish) = is(msg.Options["disclose_me"], bool) && msg.Options["disclose_me"].(bool)
+//@ pred wantsAck(msg *wamp.Publish) = "acknowledge" in msg.Options && is(msg.Options["acknowledge"], bool) && msg.Options["acknowledge"].(bool)
+//@ pred wantsDisclose(msg *wamp.Publish) = "disclose_me" in msg.Options && is(msg.Options["disclose_me"], bool) && msg.Options["disclose_me"].(bool)
 
 //@ func (b *broker) publish
 //@   dyncalls-pure
@@ -382,8 +383,9 @@ package router
 //@ func (d *dealer) syncMatchProcedure
 //@   on dealer
 //@   props C03 C18
-//@   requires dealerNN(d)
+//@   requires dealerNN(d) && dealerExact(d) && dealerPfx(d) && dealerWc(d)
 //@   pure
+//@   ensures [registered] result1 ==> result0 != nil && result0.id in d.registrations && d.registrations[result0.id] == result0
 //@   ensures [exact-first] procedure in d.procRegMap ==> result1 && result0 == d.procRegMap[procedure]
 //@   ensures [prefix-longest] !(procedure in d.procRegMap) && (exists p wamp.URI :: pfxMatches(d, p, procedure)) ==> result1 && (exists p wamp.URI :: pfxMatches(d, p, procedure) && result0 == d.pfxProcRegMap[p] && (forall q wamp.URI :: pfxMatches(d, q, procedure) ==> len(q) <= len(p)))
 //@   ensures [wildcard-last] !(procedure in d.procRegMap) && !(exists p wamp.URI :: pfxMatches(d, p, procedure)) && (exists w wamp.URI :: wcMatches(d, w, procedure)) ==> result1 && (exists w wamp.URI :: wcMatches(d, w, procedure) && result0 == d.wcProcRegMap[w] && (forall q wamp.URI :: wcMatches(d, q, procedure) ==> len(q) <= len(w)))
@@ -410,7 +412,7 @@ package router
 //@ pred dealerPfx(d *dealer) = forall p wamp.URI :: p in d.pfxProcRegMap ==> (d.pfxProcRegMap[p] != nil && d.pfxProcRegMap[p].procedure == p && d.pfxProcRegMap[p].match == wamp.MatchPrefix && d.pfxProcRegMap[p].id in d.registrations && d.registrations[d.pfxProcRegMap[p].id] == d.pfxProcRegMap[p])
 //@ pred dealerWc(d *dealer) = forall p wamp.URI :: p in d.wcProcRegMap ==> (d.wcProcRegMap[p] != nil && d.wcProcRegMap[p].procedure == p && d.wcProcRegMap[p].match == wamp.MatchWildcard && d.wcProcRegMap[p].id in d.registrations && d.registrations[d.wcProcRegMap[p].id] == d.wcProcRegMap[p])
 
-//@ pred dealerCallees(d *dealer) = forall i wamp.ID, k mathint :: i in d.registrations && 0 <= k && k < len(d.registrations[i].callees) ==> d.registrations[i].callees[k] != nil && !isnil(d.registrations[i].callees[k].Peer)
+//@ pred dealerCallees(d *dealer) = forall i wamp.ID, k mathint :: i in d.registrations && 0 <= k && k < len(d.registrations[i].callees) ==> allocated(d.registrations[i].callees[k]) && !isnil(d.registrations[i].callees[k].Peer)
 
 //@ pred dealerNoDup(d *dealer) = forall i wamp.ID, k1 mathint, k2 mathint :: i in d.registrations && 0 <= k1 && k1 < k2 && k2 < len(d.registrations[i].callees) ==> d.registrations[i].callees[k1] != d.registrations[i].callees[k2]
 
@@ -534,6 +536,7 @@ package router
 // Dealer: call bookkeeping
 
 //@ immutable invocation callID, callee, options
+//@ immutable requestID session, request
 //@ immutable wamp.Call *
 //@ immutable wamp.Cancel *
 //@ immutable wamp.Yield *
@@ -546,9 +549,23 @@ package router
 //@ immutable wamp.Unregistered *
 
 //@ pred callsA(d *dealer) = forall c requestID :: c in d.invocationByCall ==> c in d.calls && d.invocationByCall[c] in d.invocations && d.invocations[d.invocationByCall[c]].callID == c
-//@ pred callsB(d *dealer) = forall i requestID :: i in d.invocations ==> allocated(d.invocations[i]) && d.invocations[i].callee != nil && !isnil(d.invocations[i].callee.Peer) && i.session == d.invocations[i].callee.ID && d.invocations[i].callID in d.invocationByCall && d.invocationByCall[d.invocations[i].callID] == i
-//@ pred callsC(d *dealer) = forall c requestID :: c in d.calls ==> d.calls[c] != nil && !isnil(d.calls[c].Peer) && c.session == d.calls[c].ID && c in d.invocationByCall
+//@ pred callsB(d *dealer) = forall i requestID :: i in d.invocations ==> allocated(d.invocations[i]) && allocated(d.invocations[i].callee) && !isnil(d.invocations[i].callee.Peer) && i.session == d.invocations[i].callee.ID && d.invocations[i].callID in d.invocationByCall && d.invocationByCall[d.invocations[i].callID] == i
+//@ pred callsC(d *dealer) = forall c requestID :: c in d.calls ==> allocated(d.calls[c]) && !isnil(d.calls[c].Peer) && c.session == d.calls[c].ID && c in d.invocationByCall
 //@ pred callsInv(d *dealer) = callsA(d) && callsB(d) && callsC(d)
+//@ pred callsFresh(d *dealer) = forall i requestID :: i in d.invocations ==> i.request <= d.invocations[i].callee.IDGen.IDGen.next
+//@ pred noIdWrap() = forall s *wamp.Session :: s.IDGen.IDGen.next < wamp.MaxID
+//@ spec func sessionOfID(id wamp.ID) *wamp.Session
+//@ pred uniqueSessionIDs() = forall s *wamp.Session :: allocated(s) ==> sessionOfID(s.ID) == s
+
+//@ pred callDelta(d *dealer, rid requestID, iid requestID, caller *wamp.Session, callee *wamp.Session) = (forall c requestID :: c != rid ==> (c in d.calls) == old(c in d.calls) && d.calls[c] == old(d.calls[c]) && (c in d.invocationByCall) == old(c in d.invocationByCall) && d.invocationByCall[c] == old(d.invocationByCall[c])) && (forall i requestID :: i != iid ==> (i in d.invocations) == old(i in d.invocations) && d.invocations[i] == old(d.invocations[i])) && rid in d.invocationByCall && d.invocationByCall[rid] == iid && iid in d.invocations && d.invocations[iid].callID == rid && d.invocations[iid].callee == callee && allocated(callee) && !isnil(callee.Peer) && iid.session == callee.ID && allocated(d.invocations[iid]) && rid in d.calls && d.calls[rid] == caller && allocated(caller) && !isnil(caller.Peer) && rid.session == caller.ID && (old(iid in d.invocations) ==> old(rid in d.invocationByCall)) && (old(rid in d.invocationByCall) ==> old(d.invocationByCall[rid]) == iid)
+
+//@ lemma callRecorded(d *dealer, rid requestID, iid requestID, caller *wamp.Session, callee *wamp.Session)
+//@   props C02 C03 C05
+//@   hyp [old-inv] old(callsA(d)) && old(callsB(d)) && old(callsC(d))
+//@   hyp [delta] callDelta(d, rid, iid, caller, callee)
+//@   concl [a] callsA(d)
+//@   concl [b] callsB(d)
+//@   concl [c] callsC(d)
 
 //@ pred cancellable(d *dealer, caller *wamp.Session, rid requestID) = rid in d.calls && d.calls[rid] == caller && !d.invocations[d.invocationByCall[rid]].canceled
 
@@ -585,9 +602,107 @@ package router
 //@   ensures [inv-a] callsA(d)
 //@   ensures [inv-b] callsB(d)
 //@   ensures [inv-c] callsC(d)
+//@   ensures [invocations-only-shrink] forall i requestID :: i in d.invocations ==> old(i in d.invocations) && d.invocations[i] == old(d.invocations[i])
 //@   ensures [unknown-invocation-no-effect] !old(requestID(callee.ID, msg.Request) in d.invocations) ==> (forall c requestID :: (c in d.calls) == old(c in d.calls) && (c in d.invocationByCall) == old(c in d.invocationByCall) && (c in d.invocations) == old(c in d.invocations)) && (forall s *wamp.Session :: calls(trySend, s) == old(calls(trySend, s))) && (forall c mathint :: sendcount(c) == old(sendcount(c)))
 //@   ensures [finishes-call] old(requestID(callee.ID, msg.Request) in d.invocations) ==> callGone(d, old(d.invocations[requestID(callee.ID, msg.Request)].callID), requestID(callee.ID, msg.Request))
 //@   ensures [one-error-to-caller] old(requestID(callee.ID, msg.Request) in d.invocations) ==> calls(trySend, old(d.calls[d.invocations[requestID(callee.ID, msg.Request)].callID])) == old(calls(trySend, d.calls[d.invocations[requestID(callee.ID, msg.Request)].callID])) + 1
 //@   ensures [nobody-else] forall s *wamp.Session :: old(requestID(callee.ID, msg.Request) in d.invocations) && s != old(d.calls[d.invocations[requestID(callee.ID, msg.Request)].callID]) ==> calls(trySend, s) == old(calls(trySend, s))
-//@   ensures [others-kept] forall c requestID :: old(requestID(callee.ID, msg.Request) in d.invocations) && c != old(d.invocations[requestID(callee.ID, msg.Request)].callID) ==> (c in d.calls) == old(c in d.calls) && d.calls[c] == old(d.calls[c]) && (c in d.invocationByCall) == old(c in d.invocationByCall) && d.invocationByCall[c] == old(d.invocationByCall[c])
+//@   ensures [others-kept] forall c requestID :: c != old(d.invocations[requestID(callee.ID, msg.Request)].callID) ==> (c in d.calls) == old(c in d.calls) && d.calls[c] == old(d.calls[c]) && (c in d.invocationByCall) == old(c in d.invocationByCall) && d.invocationByCall[c] == old(d.invocationByCall[c])
 //@   callsite trySend : [forwarded-to-caller] arg1 == old(d.calls[d.invocations[requestID(callee.ID, msg.Request)].callID]) && is(arg2, *wamp.Error) && arg2.(*wamp.Error).Type == wamp.CALL && arg2.(*wamp.Error).Request == old(d.invocations[requestID(callee.ID, msg.Request)].callID).request && arg2.(*wamp.Error).Error == msg.Error && arg2.(*wamp.Error).Details == msg.Details && arg2.(*wamp.Error).Arguments == msg.Arguments && arg2.(*wamp.Error).ArgumentsKw == msg.ArgumentsKw
+
+//@ pred ownsInvocation(d *dealer, callee *wamp.Session, iid requestID) = iid in d.invocations && d.invocations[iid].callee == callee
+
+//@ func (d *dealer) syncYield
+//@   dyncalls-pure
+//@   on dealer
+//@   props C02 C03 C13
+//@   requires dealerNN(d) && callsInv(d) && callee != nil && !isnil(callee.Peer) && msg != nil
+//@   modifies map(d.calls), map(d.invocations), map(d.invocationByCall), all invocation.canceled, ghost sendcount, ghost closed
+//@   ensures [inv-a] callsA(d)
+//@   ensures [inv-b] callsB(d)
+//@   ensures [inv-c] callsC(d)
+//@   ensures [not-owner-no-effect] !old(ownsInvocation(d, callee, requestID(callee.ID, msg.Request))) ==> !result && (forall c requestID :: (c in d.calls) == old(c in d.calls) && (c in d.invocationByCall) == old(c in d.invocationByCall) && (c in d.invocations) == old(c in d.invocations))
+//@   ensures [retry-keeps-everything] result ==> canRetry && old(ownsInvocation(d, callee, requestID(callee.ID, msg.Request))) && (forall c requestID :: (c in d.calls) == old(c in d.calls) && (c in d.invocationByCall) == old(c in d.invocationByCall) && (c in d.invocations) == old(c in d.invocations))
+//@   ensures [final-finishes-call] old(ownsInvocation(d, callee, requestID(callee.ID, msg.Request))) && !progress && !result && !old(d.invocations[requestID(callee.ID, msg.Request)].inProgress) ==> callGone(d, old(d.invocations[requestID(callee.ID, msg.Request)].callID), requestID(callee.ID, msg.Request))
+//@   ensures [others-kept] forall c requestID :: !old(ownsInvocation(d, callee, requestID(callee.ID, msg.Request))) || c != old(d.invocations[requestID(callee.ID, msg.Request)].callID) ==> (c in d.calls) == old(c in d.calls) && d.calls[c] == old(d.calls[c]) && (c in d.invocationByCall) == old(c in d.invocationByCall) && d.invocationByCall[c] == old(d.invocationByCall[c])
+//@   sendsite send : [result-to-own-caller] is(m, *wamp.Result) ==> old(ownsInvocation(d, callee, requestID(callee.ID, msg.Request))) && ch == sendChan(old(d.calls[d.invocations[requestID(callee.ID, msg.Request)].callID])) && m.(*wamp.Result).Request == old(d.invocations[requestID(callee.ID, msg.Request)].callID).request && m.(*wamp.Result).Arguments == msg.Arguments && m.(*wamp.Result).ArgumentsKw == msg.ArgumentsKw && (("progress" in m.(*wamp.Result).Details) <==> progress)
+//@   sendsite send : [interrupt-only-for-unknown-progress] is(m, *wamp.Interrupt) ==> !old(requestID(callee.ID, msg.Request) in d.invocations) && progress && ch == sendChan(callee) && m.(*wamp.Interrupt).Request == msg.Request
+//@   sendsite send : [nothing-else] is(m, *wamp.Result) || is(m, *wamp.Interrupt)
+//@   callsite trySend : [only-to-the-yielding-callee] arg1 == callee && (is(arg2, *wamp.Error) || is(arg2, *wamp.Abort))
+//@   callsite syncError : [finishes-own-invocation] arg1 == callee && arg2.Request == msg.Request && old(ownsInvocation(d, callee, requestID(callee.ID, msg.Request)))
+//@   callsite syncCancel : [cancels-own-call] old(ownsInvocation(d, callee, requestID(callee.ID, msg.Request))) && arg1 == old(d.calls[d.invocations[requestID(callee.ID, msg.Request)].callID]) && arg2.Request == old(d.invocations[requestID(callee.ID, msg.Request)].callID).request && !canRetry
+
+//@ func discloseCaller
+//@   props C12
+//@   requires caller != nil && details != nil
+//@   modifies map(details)
+//@   ensures [caller] "caller" in details && details["caller"] == box(caller.ID)
+//@   ensures [others-kept] forall k string :: k != "caller" && k != "caller_authid" && k != "caller_authrole" ==> (k in details) == old(k in details) && details[k] == old(details[k])
+//@   ensures [ground-others] ("receive_progress" in details) == old("receive_progress" in details) && details["receive_progress"] == old(details["receive_progress"]) && ("progress" in details) == old("progress" in details) && details["progress"] == old(details["progress"]) && ("timeout" in details) == old("timeout" in details) && details["timeout"] == old(details["timeout"]) && ("procedure" in details) == old("procedure" in details) && details["procedure"] == old(details["procedure"]) && ("ppt_scheme" in details) == old("ppt_scheme" in details) && details["ppt_scheme"] == old(details["ppt_scheme"])
+//@   loop range []string{"authid", "authrole"}
+//@     invariant [caller] "caller" in details && details["caller"] == box(caller.ID)
+//@     invariant [others-kept] forall k string :: k != "caller" && k != "caller_authid" && k != "caller_authrole" ==> (k in details) == old(k in details) && details[k] == old(details[k])
+
+//@ pred optTrue(o wamp.Dict, k string) = k in o && is(o[k], bool) && o[k].(bool)
+
+//@ pred isNewCall(d *dealer, caller *wamp.Session, msg *wamp.Call) = !(requestID(caller.ID, msg.Request) in d.invocationByCall)
+
+//@ func (d *dealer) syncCall
+//@   perreturn
+//@   dyncalls-pure
+//@   on dealer
+//@   props C02 C03 C05 C12 C13
+//@   requires dealerInv(d) && callsInv(d) && callsFresh(d) && caller != nil && !isnil(caller.Peer) && msg != nil
+//@   assume [no-invocation-id-wrap] noIdWrap()
+//@   assume [unique-session-ids] uniqueSessionIDs()
+//@   modifies map(d.calls), map(d.invocations), map(d.invocationByCall), all registration.nextCallee, all invocation.inProgress, all invocation.timerCancel, all wamp.IDGen.next, ghost sendcount, ghost closed
+//@   ensures [others-kept] forall c requestID :: requestID(caller.ID, msg.Request) in d.calls && c != requestID(caller.ID, msg.Request) ==> (c in d.calls) == old(c in d.calls) && d.calls[c] == old(d.calls[c]) && (c in d.invocationByCall) == old(c in d.invocationByCall) && d.invocationByCall[c] == old(d.invocationByCall[c])
+//@   ensures [inv-a] callsA(d)
+//@   ensures [inv-b] callsB(d)
+//@   ensures [inv-c] callsC(d)
+//@   ensures [inv-regs] dealerRegs(d)
+//@   ensures [inv-fresh] callsFresh(d)
+//@   ensures [pending-call-has-owner] requestID(caller.ID, msg.Request) in d.calls ==> d.calls[requestID(caller.ID, msg.Request)] == caller || old(requestID(caller.ID, msg.Request) in d.calls)
+//@   ensures [never-half-recorded] (requestID(caller.ID, msg.Request) in d.calls) == (requestID(caller.ID, msg.Request) in d.invocationByCall)
+//@   callsite trySend : [errors-to-caller] arg1 == caller && (is(arg2, *wamp.Abort) || (is(arg2, *wamp.Error) && arg2.(*wamp.Error).Type == wamp.CALL && arg2.(*wamp.Error).Request == msg.Request))
+//@   callsite trySend : [refusal-touches-nothing] forall c requestID :: (c in d.calls) == old(c in d.calls) && d.calls[c] == old(d.calls[c]) && (c in d.invocationByCall) == old(c in d.invocationByCall) && d.invocationByCall[c] == old(d.invocationByCall[c]) && (c in d.invocations) == old(c in d.invocations)
+//@   callsite trySend : [refused-leaves-no-new-entry] old(isNewCall(d, caller, msg)) ==> !(requestID(caller.ID, msg.Request) in d.calls) && !(requestID(caller.ID, msg.Request) in d.invocationByCall)
+//@   sendsite invocation : [only-invocations] is(m, *wamp.Invocation)
+//@   sendsite invocation : [to-registered-callee] ch == sendChan(callee) && reg != nil && reg.id in d.registrations && d.registrations[reg.id] == reg && m.(*wamp.Invocation).Registration == reg.id
+//@   sendsite invocation : [best-match-exact] msg.Procedure in d.procRegMap ==> reg == d.procRegMap[msg.Procedure]
+//@   sendsite invocation : [best-match-prefix] !(msg.Procedure in d.procRegMap) && (exists p wamp.URI :: pfxMatches(d, p, msg.Procedure)) ==> (exists p wamp.URI :: pfxMatches(d, p, msg.Procedure) && reg == d.pfxProcRegMap[p] && (forall q wamp.URI :: pfxMatches(d, q, msg.Procedure) ==> len(q) <= len(p)))
+//@   sendsite invocation : [best-match-wildcard] !(msg.Procedure in d.procRegMap) && !(exists p wamp.URI :: pfxMatches(d, p, msg.Procedure)) ==> (exists w wamp.URI :: wcMatches(d, w, msg.Procedure) && reg == d.wcProcRegMap[w])
+//@   sendsite invocation : [payload-intact] m.(*wamp.Invocation).Arguments == msg.Arguments && m.(*wamp.Invocation).ArgumentsKw == msg.ArgumentsKw && m.(*wamp.Invocation).Request == invocationID
+//@   sendsite invocation : [new-call-member] old(isNewCall(d, caller, msg)) ==> calleeOf(reg, callee)
+//@   sendsite invocation : [policy-single] old(isNewCall(d, caller, msg)) && len(reg.callees) == 1 ==> callee == reg.callees[0]
+//@   sendsite invocation : [policy-first] old(isNewCall(d, caller, msg)) && len(reg.callees) > 1 && reg.policy == wamp.InvokeFirst ==> callee == reg.callees[0]
+//@   sendsite invocation : [policy-last] old(isNewCall(d, caller, msg)) && len(reg.callees) > 1 && reg.policy == wamp.InvokeLast ==> callee == reg.callees[len(reg.callees) - 1]
+//@   sendsite invocation : [policy-roundrobin] old(isNewCall(d, caller, msg)) && len(reg.callees) > 1 && reg.policy == wamp.InvokeRoundRobin ==> callee == reg.callees[old(reg.nextCallee) >= len(reg.callees) ? 0 : old(reg.nextCallee)] && reg.nextCallee == (old(reg.nextCallee) >= len(reg.callees) ? 0 : old(reg.nextCallee)) + 1
+//@   sendsite invocation : [fresh-invocation-id] old(isNewCall(d, caller, msg)) ==> (old(callee.IDGen.IDGen.next) < wamp.MaxID ==> invocationID == old(callee.IDGen.IDGen.next) + 1) && (old(callee.IDGen.IDGen.next) == wamp.MaxID ==> invocationID == 1)
+//@   sendsite invocation : [recorded] old(isNewCall(d, caller, msg)) ==> requestID(caller.ID, msg.Request) in d.calls && d.calls[requestID(caller.ID, msg.Request)] == caller && d.invocationByCall[requestID(caller.ID, msg.Request)] == requestID(callee.ID, invocationID) && requestID(callee.ID, invocationID) in d.invocations && d.invocations[requestID(callee.ID, invocationID)].callee == callee
+//@   sendsite invocation : [continuation-same-callee] !old(isNewCall(d, caller, msg)) ==> callee == old(d.invocations[d.invocationByCall[requestID(caller.ID, msg.Request)]].callee) && invocationID == old(d.invocationByCall[requestID(caller.ID, msg.Request)]).request
+//@   sendsite invocation : [others-kept-so-far] forall c requestID :: c != requestID(caller.ID, msg.Request) ==> (c in d.calls) == old(c in d.calls) && d.calls[c] == old(d.calls[c]) && (c in d.invocationByCall) == old(c in d.invocationByCall) && d.invocationByCall[c] == old(d.invocationByCall[c])
+//@   sendsite invocation : [invocations-so-far] forall i requestID :: i != requestID(callee.ID, invocationID) ==> (i in d.invocations) == old(i in d.invocations) && d.invocations[i] == old(d.invocations[i])
+//@   sendsite invocation : [d1] requestID(caller.ID, msg.Request) in d.invocationByCall && d.invocationByCall[requestID(caller.ID, msg.Request)] == requestID(callee.ID, invocationID)
+//@   sendsite invocation : [d2] requestID(callee.ID, invocationID) in d.invocations && d.invocations[requestID(callee.ID, invocationID)].callee == callee && allocated(d.invocations[requestID(callee.ID, invocationID)])
+//@   sendsite invocation : [d3] d.invocations[requestID(callee.ID, invocationID)].callID == requestID(caller.ID, msg.Request)
+//@   sendsite invocation : [d4] allocated(callee) && !isnil(callee.Peer) && allocated(caller)
+//@   sendsite invocation : [d5] requestID(caller.ID, msg.Request) in d.calls && d.calls[requestID(caller.ID, msg.Request)] == caller
+//@   sendsite invocation : [d6] old(requestID(callee.ID, invocationID) in d.invocations) ==> old(requestID(caller.ID, msg.Request) in d.invocationByCall)
+//@   sendsite invocation : [d7] old(requestID(caller.ID, msg.Request) in d.invocationByCall) ==> old(d.invocationByCall[requestID(caller.ID, msg.Request)]) == requestID(callee.ID, invocationID)
+//@   sendsite invocation : [own-entry] callDelta(d, requestID(caller.ID, msg.Request), requestID(callee.ID, invocationID), caller, callee)
+//@   sendsite invocation : use callRecorded(d, requestID(caller.ID, msg.Request), requestID(callee.ID, invocationID), caller, callee)
+//@   sendsite invocation : [bookkeeping-consistent-a] callsA(d)
+//@   sendsite invocation : [bookkeeping-consistent-b] callsB(d)
+//@   sendsite invocation : [bookkeeping-consistent-c] callsC(d)
+//@   sendsite invocation : [bookkeeping-fresh] callsFresh(d)
+//@   callsite Next : [details-before-id-receive-progress-only-if] "receive_progress" in details ==> optTrue(msg.Options, "receive_progress") && hasFeature(callee, "callee", "progressive_call_results") && hasFeature(callee, "callee", "call_canceling")
+//@   callsite Next : [details-before-id-receive-progress-if] optTrue(msg.Options, "receive_progress") && hasFeature(callee, "callee", "progressive_call_results") && hasFeature(callee, "callee", "call_canceling") ==> "receive_progress" in details && details["receive_progress"] == box(true)
+//@   callsite syncError : [others-kept-so-far] forall c requestID :: c != requestID(caller.ID, msg.Request) ==> (c in d.calls) == old(c in d.calls) && d.calls[c] == old(d.calls[c]) && (c in d.invocationByCall) == old(c in d.invocationByCall) && d.invocationByCall[c] == old(d.invocationByCall[c])
+//@   callsite syncError : [own-invocation] requestID(arg1.ID, arg2.Request) in d.invocations && d.invocations[requestID(arg1.ID, arg2.Request)].callID == requestID(caller.ID, msg.Request)
+//@   callsite Next : [details-before-id-caller] "caller" in details ==> reg.disclose || (optTrue(msg.Options, "disclose_me") && d.allowDisclose && hasFeature(callee, "callee", "caller_identification"))
+//@   callsite Next : [details-before-id-no-timeout] !("timeout" in details)
+//@   sendsite invocation : [receive-progress] "receive_progress" in m.(*wamp.Invocation).Details ==> old(isNewCall(d, caller, msg)) && optTrue(msg.Options, "receive_progress") && hasFeature(callee, "callee", "progressive_call_results") && hasFeature(callee, "callee", "call_canceling")
+//@   sendsite invocation : [receive-progress-granted] old(isNewCall(d, caller, msg)) && optTrue(msg.Options, "receive_progress") && hasFeature(callee, "callee", "progressive_call_results") && hasFeature(callee, "callee", "call_canceling") ==> "receive_progress" in m.(*wamp.Invocation).Details && m.(*wamp.Invocation).Details["receive_progress"] == box(true)
+//@   sendsite invocation : [caller-disclosed-only-if-allowed] "caller" in m.(*wamp.Invocation).Details ==> reg.disclose || (optTrue(msg.Options, "disclose_me") && d.allowDisclose && hasFeature(callee, "callee", "caller_identification"))
+//@   sendsite invocation : [timeout-forwarded-only-if-handled] "timeout" in m.(*wamp.Invocation).Details ==> old(isNewCall(d, caller, msg)) && hasFeature(callee, "callee", "call_timeout") && reg.forwardTimeout
